@@ -1015,11 +1015,24 @@ class Executor:
             raise Unsupported("bit operator on unknown operand types")
         if isinstance(op, ast.Add):
             if isinstance(a, SV) and isinstance(b, SV):
-                if a.ty == "str" or b.ty == "str":
+                if a.ty == "str" and b.ty == "str":
                     return [(st, SV(mk_s(z3.Concat(Sc.sv(a.t), Sc.sv(b.t))), "str"))]
-                if a.ty == "int" or b.ty == "int":
-                    return [(st, SV(mk_i(Sc.iv(a.t) + Sc.iv(b.t)), "int"))]
-                raise Unsupported("+ on untyped scalars")
+                if a.ty == "str" or b.ty == "str":
+                    other = b if a.ty == "str" else a
+                    if other.ty is None:
+                        # the other operand's type is not known statically: it is a string or the addition raises
+                        out_add: List[Res] = []
+                        for s_, is_str in self.branch(st, Sc.is_s(other.t)):
+                            out_add.append((s_, SV(mk_s(z3.Concat(Sc.sv(a.t), Sc.sv(b.t))), "str")) if is_str
+                                           else self.raise_(s_, "TypeError", sv_str("can only concatenate str")))
+                        return out_add
+                    return [self.raise_(st, "TypeError", sv_str("can only concatenate str"))]
+                if a.ty == "str" and b.ty == "str":
+                    pass
+                xi, yi = self._as_int(a), self._as_int(b)
+                if xi is not None and yi is not None:
+                    return [(st, SV(mk_i(xi + yi), "int"))]
+                raise Unsupported("+ on scalars that are not known to be two strings or two integers")
             if isinstance(a, Tup) and isinstance(b, Tup):
                 return [(st, Tup(a.items + b.items))]
             if isinstance(a, Ref) and isinstance(b, Ref) and isinstance(st.heap[a.oid], ListObj) \
@@ -1033,11 +1046,33 @@ class Executor:
                     return self.call(fv, [b], {}, st)
             raise Unsupported("+ on these operands")
         if isinstance(op, (ast.Sub, ast.Mult, ast.Mod, ast.FloorDiv)):
-            if isinstance(a, SV) and isinstance(b, SV):
-                x, y = Sc.iv(a.t), Sc.iv(b.t)
-                r = {ast.Sub: x - y, ast.Mult: x * y, ast.Mod: x % y, ast.FloorDiv: x / y}[type(op)]
-                return [(st, SV(mk_i(r), "int"))]
+            x, y = self._as_int(a), self._as_int(b)
+            if x is None or y is None:
+                raise Unsupported(f"{type(op).__name__} on operands that are not known to be integers")
+            if isinstance(op, ast.Sub):
+                return [(st, SV(mk_i(x - y), "int"))]
+            if isinstance(op, ast.Mult):
+                return [(st, SV(mk_i(x * y), "int"))]
+            # Python floors (the remainder has the sign of the divisor) and raises for a zero divisor; SMT-LIB's div / mod
+            # are Euclidean, which is the same thing for a positive divisor only
+            out: List[Res] = []
+            for s, zero in self.branch(st, y == 0):
+                if zero:
+                    out.append(self.raise_(s, "ZeroDivisionError", sv_str("integer division or modulo by zero")))
+                    continue
+                q = z3.If(y > 0, x / y, (-x) / (-y))
+                out.append((s, SV(mk_i(q if isinstance(op, ast.FloorDiv) else x - q * y), "int")))
+            return out
         raise Unsupported(f"binary operator {type(op).__name__}")
+
+    @staticmethod
+    def _as_int(v):
+        """the integer a value stands for in arithmetic (bool counts as 0 / 1), or None"""
+        if isinstance(v, SV) and v.ty == "int":
+            return Sc.iv(v.t)
+        if isinstance(v, SV) and v.ty == "bool":
+            return z3.If(Sc.bv(v.t), z3.IntVal(1), z3.IntVal(0))
+        return None
 
     def e_Subscript(self, e: ast.Subscript, st: State) -> List[Res]:
         if isinstance(e.slice, ast.Slice):
